@@ -255,6 +255,7 @@ PROPS = {
             "the gate timestamps accepted attempts; a delay is measured from the instant the previous attempt failed (RST/close at accept, handshake timeout after 1 s, cut instant)",
             "lower bounds on delays are hard (a sleep cannot be short, 5 ms slack); upper bounds use the minimum over repeats with tolerance max(150 ms, 50%); a delay is judged too late only if it was late in every one of 5 repeats while a 5 ms timer task on the same runtime never overshot by more than a quarter of the tolerance (load witness), otherwise inconclusive",
             "true ECONNREFUSED attempts cannot be timestamped by the gate and are not part of the timing oracle",
+            "which errors are final is not spelled out by the statement; the reference is the classification of the tree the checks were written against: a complete HTTP answer to the upgrade request other than 101 (404, but also 200 / 301 / 503 as a server hands them out from its backend to a client it does not recognise) ends the client at once, whatever max_retry_count is",
         ],
     },
     "C01": {
